@@ -366,6 +366,77 @@ Section Reduce.
   Definition global_chunk (ncpu : nat) (len : nat) : nat := (len + ncpu - 1) / ncpu.
 End Reduce.
 
+(* Pipeline::execute_stream (after the repair): k stage tasks connected by FIFO channels.  Stage j
+   repeatedly receives an item from its input channel, applies its function (None = it fails or
+   times out) and sends the result downstream.  A stage ends when its input is exhausted and closed
+   (SDone), when its function fails (SFailed: reported as Err by execute_stream) or when the
+   downstream receiver is gone (SClosed).  History variables: `s_sent` = everything the stage has
+   ever sent, `s_taken` = how many items it has received.  Channel capacities only restrict the
+   schedules, so every real interleaving is one of the model's. *)
+Inductive sstatus := SAlive | SDone | SFailed | SClosed.
+Definition is_alive (s : sstatus) : bool := match s with SAlive => true | _ => false end.
+Definition is_failed (s : sstatus) : bool := match s with SFailed => true | _ => false end.
+Record stg (A : Type) := mkS { s_taken : nat; s_sent : list A; s_status : sstatus }.
+Arguments mkS {A} s_taken s_sent s_status.
+Arguments s_taken {A} s.
+Arguments s_sent {A} s.
+Arguments s_status {A} s.
+
+Fixpoint mapwhile {A} (f : A -> option A) (l : list A) : list A :=
+  match l with
+  | [] => []
+  | x :: r => match f x with Some y => y :: mapwhile f r | None => [] end
+  end.
+
+Section Stream.
+  Context {A : Type}.
+  Variable fs : list (A -> option A).   (* the stages *)
+  Variable inputs : list A.             (* what the producer sends before closing the input channel *)
+
+  Definition upstream_sent (st : list (stg A)) (j : nat) : list A :=
+    match j with
+    | O => inputs
+    | S i => match nth_error st i with Some s => s_sent s | None => [] end
+    end.
+  Definition upstream_dead (st : list (stg A)) (j : nat) : bool :=
+    match j with
+    | O => true
+    | S i => match nth_error st i with Some s => negb (is_alive (s_status s)) | None => true end
+    end.
+  (* the last stage writes to the pipeline output, whose receiver the caller keeps *)
+  Definition downstream_alive (st : list (stg A)) (j : nat) : bool :=
+    match nth_error st (S j) with Some s => is_alive (s_status s) | None => true end.
+
+  Definition sstep (st : list (stg A)) (j : nat) : list (stg A) :=
+    match nth_error st j, nth_error fs j with
+    | Some s, Some f =>
+        if is_alive (s_status s) then
+          match nth_error (upstream_sent st j) (s_taken s) with
+          | Some x =>
+              match f x with
+              | Some y =>
+                  if downstream_alive st j
+                  then set_nth j (mkS (S (s_taken s)) (s_sent s ++ [y]) SAlive) st
+                  else set_nth j (mkS (S (s_taken s)) (s_sent s) SClosed) st
+              | None => set_nth j (mkS (S (s_taken s)) (s_sent s) SFailed) st
+              end
+          | None => if upstream_dead st j then set_nth j (mkS (s_taken s) (s_sent s) SDone) st else st
+          end
+        else st
+    | _, _ => st
+    end.
+
+  Definition stream_init : list (stg A) := repeat (mkS 0 [] SAlive) (length fs).
+  Definition stream_run (sched : list nat) : list (stg A) := fold_left sstep sched stream_init.
+  Definition stream_output (st : list (stg A)) : list A :=
+    match length fs with O => inputs | S i => upstream_sent st (S i) end.
+  Definition stream_finished (st : list (stg A)) : bool := forallb (fun s => negb (is_alive (s_status s))) st.
+  (* execute_stream returns Err iff some stage task reported a failure *)
+  Definition stream_err (st : list (stg A)) : bool := existsb (fun s => is_failed (s_status s)) st.
+  (* sequential reference: push the whole input through stage after stage, each stopping at its first failure *)
+  Definition stream_want : list A := fold_left (fun acc f => mapwhile f acc) fs inputs.
+End Stream.
+
 (* BatchCollector: buffer + emitted batches.  add pushes and flushes when len >= max; flush drains *)
 Record coll (A : Type) := mkC { cbuf : list A; cout : list (list A) }.
 Arguments mkC {A} cbuf cout.
@@ -548,7 +619,21 @@ Definition case_coll (maxb : N) (ops : list Z) : list Z :=
   let c := run_coll maxb (mkC [] []) ops in
   flat_map (fun b => b ++ [(-1)%Z]) (cout c) ++ [(-2)%Z] ++ cbuf c.
 
-(* kind 0 queue, 1 submit, 2 parallel_map / process_batch, 3 reduce, 4 collector, 5 single-worker execution order, 6 hooked executor history *)
+(* execute_stream: k copies of the shared stage function (the first one also times out on x = 7 mod 32
+   when `slow`), evaluated under the round-robin schedule; by stream_complete / stream_prefix the verdict
+   and a successful output do not depend on the schedule *)
+Definition stage_slow (x : Z) : option Z := if (x mod 32 =? 7)%Z then None else stage x.
+Definition case_stream (k : N) (slow : N) (xs : list Z) : list Z :=
+  let kn := N.to_nat k in
+  let fs := match kn with
+            | O => []
+            | S r => (if slow =? 0 then stage else stage_slow) :: repeat stage r
+            end in
+  let sched := concat (repeat (seq 0 kn) (length xs + kn + 2)) in
+  let st := stream_run fs xs sched in
+  if stream_err st then [0%Z] else 1%Z :: stream_output fs xs st.
+
+(* kind 0 queue, 1 submit, 2 parallel_map / process_batch, 3 reduce, 4 collector, 5 single-worker execution order, 6 hooked executor history, 7 execute_stream *)
 Definition run_case (fixed : bool) (kind a b : N) (ops : list Z) : list Z :=
   match kind with
   | 0 => case_queue fixed a b ops
@@ -557,5 +642,6 @@ Definition run_case (fixed : bool) (kind a b : N) (ops : list Z) : list Z :=
   | 3 => case_reduce a ops
   | 4 => case_coll a ops
   | 5 => case_order fixed a ops
-  | _ => case_hist fixed a b ops
+  | 6 => case_hist fixed a b ops
+  | _ => case_stream a b ops
   end.
